@@ -125,11 +125,12 @@ def run(ctx):
     n = 0
     for bid, b in load.blocks.items():
         for i, s in enumerate(b['succ']):
-            ef = load.edge_fact(bid, i)
-            if not (ef and s is not None):
+            if s is None:
                 continue
-            k = ef[0].replace(' ', '')
-            if ('id==expected_id' in k and ef[1] is False) or ('Node::id_<0' in k and ef[1] is False):
+            for ef in load.edge_facts(bid, i):
+                k = ef[0].replace(' ', '')
+                if not (('id==expected_id' in k and ef[1] is False) or ('Node::id_<0' in k and ef[1] is False)):
+                    continue
                 n += 1
                 r = load.find_path(None, accepted, from_succ=s, init_facts=[(ef[0], ef[1])],
                                    is_blocker=lambda x: x['k'] == 'asg' and is_var('offset')(x['l']))
